@@ -111,6 +111,22 @@ pub fn attr_tables(table: usize) -> (Option<Vec<(String, String)>>, Box<dyn Fn(u
             Box::new(|k, _v| if k % 2 == 0 { Some(vec![("shape".into(), "box".into())]) } else { None }),
             Box::new(|_u, _v, e| if e % 2 == 1 { Some(vec![("w".into(), format!("{e}"))]) } else { None }),
         ),
+        3 => {
+            // callbacks with a state of their own: each invocation hands out the next number
+            let cn = std::rc::Rc::new(std::cell::Cell::new(0usize));
+            let ce = std::rc::Rc::new(std::cell::Cell::new(0usize));
+            (
+                None,
+                Box::new(move |_k, _v| {
+                    cn.set(cn.get() + 1);
+                    Some(vec![("i".into(), cn.get().to_string())])
+                }),
+                Box::new(move |_u, _v, _e| {
+                    ce.set(ce.get() + 1);
+                    Some(vec![("j".into(), ce.get().to_string())])
+                }),
+            )
+        }
         _ => (None, Box::new(|_, _| None), Box::new(|_, _, _| None)),
     }
 }
